@@ -11,6 +11,10 @@ NOTE = ("Trusted base: go/types + go/packages (x/tools v0.29.0) type-checking /r
 CLAIMS = {
  "C12": ("Structural necessary conditions of 'nothing written after removal / no overlapping writes / completion signalled once': every use of subscriptionState.writer is under writeMu after removed.Load()==false in the same critical section (lock-set + guard dominance on all paths); completed is closed at one site reachable only through CAS-won toClose lists; updater callbacks enter the resolver only under updater.mu after the done/ctx gate; workers are joined. Does not decide order/exactness of delivered messages.",
          "static analysis: path-sensitive must-lock-set and guard-dominance over the AST/CFG of package resolve (go/types-resolved), ownership (who-may-close/who-may-call)", "§2 C12"),
+ "C13": ("Structural necessary conditions of 'triggers shared by input+headers, started once, always cleaned up': registry fields only under Resolver.mu (trigger.subscriptions written under both locks) on every path incl. inter-procedural entry sets; lock order updater.mu>Resolver.mu>trigger.mu and client I/O, cancel functions, closeSubs outside the registry locks; every field of every removal result consumed on all paths at all 5 call sites; registry insertions paired with counter increments; trigger id derives from input hash and headers hash; Source.Start has one call site, detached context, tear-down on error edge; sources call Done after Error/Complete. Does not decide 'counters return to zero for every history'.",
+         "static analysis: inter-procedural must-lock-sets, lock-order and requires-no-lock rules, result-consumption (pairing on all exits), intra-procedural value derivation for the key, typestate Error/Complete→Done", "§2 C13"),
+ "C11": ("Structural necessary conditions of 'de-duplication never wedges or crashes and shares only identical queries': leader finishes exactly once on every exit of both coalescing sites; fields read by followers are written before the wake-up close and the conditional publish decision is atomic with follower registration; shared records written only on the leader path, shared buffers never mutated in place; both keys derive from all documented components (request id, variables hash, headers hash / datasource id, input, headers hash); sharing dominated by query-only eligibility; every wait also selects on the participant's own context; a follower never returns the leader's cancellation verbatim. Does not decide byte equality of responses.",
+         "static analysis: exactly-once pairing over all exits (path interpreter with defer replay), publish-before-close dominance, lock-set atomicity, ownership (who-may-write), value derivation for key completeness, guard dominance, select-shape check, context provenance", "§2 C11"),
 }
 PENDING = "no static rule is armed for this property yet in this revision (structural clauses planned in DESIGN.md §2); the behavioural statement itself quantifies over run-time values that static analysis cannot bound"
 
@@ -31,7 +35,7 @@ for pid in props:
             "technique": tech,
         })
     else:
-        na.append({"property_id": pid, "reason": NA.get(pid, PENDING) if (NA := globals().get("NA_REASONS", {})) or True else PENDING})
+        na.append({"property_id": pid, "reason": PENDING})
 
 manifest = {
  "version": 1,
